@@ -45,7 +45,7 @@ termination / hangs, equivalence of assert-on and NDEBUG builds, decompressor in
 """
 from ..c03_util import (classify_edges, upper_bound, lower_bound, equals, truthy, reaches_unchecked, describe, local_roots,
                         starts_for, definitions, elem_of, sig, var_name, cmp_parts, CursorFlow, UNCHECKED, helper_barriers,
-                        matching_conds, deep_roots)
+                        matching_conds, deep_roots, rooted_in, guarded, guarded_ip, resolve_local, single_init)
 from ..excflow import Esc, catch_alls, handler_entry_block, must_pass
 from ..errdisc import guards
 from ..flow import path_search
@@ -140,12 +140,39 @@ def _const_le(limit):
     return f
 
 
-def _rooted_in(want):
-    """expression reads at least one of the wanted roots and no other local storage."""
-    def f(fn, nid):
-        r = local_roots(fn, nid)
-        return bool(r) and r <= want
-    return f
+_rooted_in = rooted_in      # expression reads only the wanted roots (named locals for pure sub-expressions looked through)
+
+
+def UB(is_bound):
+    return lambda is_subject: upper_bound(is_subject, is_bound)
+
+
+def LB(is_bound):
+    return lambda is_subject: lower_bound(is_subject, is_bound)
+
+
+def EQ(is_value, want_equal=True):
+    return lambda is_subject: equals(is_subject, is_value, want_equal)
+
+
+def _is01(f, x):
+    return f.const_value(x) in (0, 1)
+
+
+def _is0(f, x):
+    return f.const_value(x) == 0
+
+
+def _ipd(r):
+    """description of a guarded_ip result"""
+    if r is None:
+        return ''
+    g, w = r
+    return 'in %s: %s' % (g.q, describe(g, w))
+
+
+def _var_roots(fn, nid):
+    return {r for r in deep_roots(fn, nid) if r[0] == 'var'}
 
 
 def _method_name(q):
@@ -176,6 +203,16 @@ def g1_g2_stringtable(fb, R, esc):
         members = {n['id'] for n in fn.all_nodes() if n.get('k') == 'member' and n.get('field') and n['name'] == F and fn.is_this_member(n['id'])}
         if not members:
             continue
+        # named references to the table (`const auto& table = m_stringtable;`) are the table
+        aliased = set()
+        alias_decls = set()
+        for n in fn.all_nodes():
+            if n.get('k') == 'decl':
+                for v in n['vars']:
+                    if isinstance(v.get('init'), int) and fn.strip(v['init']) in members and v['tC'].rstrip().endswith('&'):
+                        aliased.add(fn.strip(v['init']))
+                        alias_decls.add(v['d'])
+        members |= {n['id'] for n in fn.all_nodes() if n.get('k') == 'var' and n.get('d') in alias_decls}
         used = {}
         for c in fn.all_nodes():
             if c.get('k') == 'call' and c.get('recv') is not None and 'q' in c:
@@ -187,7 +224,7 @@ def g1_g2_stringtable(fb, R, esc):
         for m in sorted(members):
             c = used.get(m)
             if c is None:
-                if fn.kind == 'ctor':
+                if fn.kind == 'ctor' or m in aliased:
                     continue
                 bad.append('%s escapes as a plain reference at %s' % (F, fn.loc(m)))
                 elem = True
@@ -238,19 +275,18 @@ def _g2_insert(fb, R, fn, c, F):
     subj = set()
     for a in c.get('args', []) or []:
         if a is not None:
-            subj |= {r for r in local_roots(fn, a) if r[0] == 'var'}
+            subj |= _var_roots(fn, a)
     key = '%s#%s-insert' % (fn.q, F)
     if not subj:
         R.broken('%s: inserted string-table entry does not come from a local view' % fn.q)
         return
-    pe = classify_edges(fn, upper_bound(_rooted_in(subj), _const_le(U16)))
     starts = []
     for r in subj:
         starts += starts_for(fn, r[1])
-    w = reaches_unchecked(fn, starts, [c['id']], pe, barriers=helper_barriers(fb, fn, subj, lambda isub: upper_bound(isub, _const_le(U16))))
+    w = guarded_ip(fb, fn, starts, [c['id']], subj, UB(_const_le(U16)))
     R.check(w is None, 'G2-stringtable-entry-length', key, fn.loc(c['id']),
             'a string-table entry is inserted without passing a length test (size > max_osm_string_length -> reject; the length is '
-            'later narrowed to 16 bit): %s' % describe(fn, w))
+            'later narrowed to 16 bit): %s' % _ipd(w))
 
 
 # ------------------------------------------------------------------------------------------------ G3 builder appends
@@ -302,14 +338,12 @@ def g3_builder_lengths(fb, R):
         # what the stored size field can hold: a narrowing cast of the subject to 16 bit anywhere in the function => 65534
         limit = U32 - 1
         for n in fn.all_nodes():
-            if n.get('k') == 'cast' and n.get('toC') in ('unsigned short', 'osmium::string_size_type') and local_roots(fn, n['id']) & subj:
+            if n.get('k') == 'cast' and n.get('toC') in ('unsigned short', 'osmium::string_size_type') and deep_roots(fn, n['id']) & subj:
                 limit = U16 - 1
-        pe = classify_edges(fn, upper_bound(_rooted_in(subj), _const_le(limit)))
-        w = reaches_unchecked(fn, ['entry'], [c['id']], pe,
-                              barriers=helper_barriers(fb, fn, subj, lambda isub, limit=limit: upper_bound(isub, _const_le(limit))))
+        w = guarded_ip(fb, fn, ['entry'], [c['id']], subj, UB(_const_le(limit)))
         R.check(w is None, 'G3-builder-string-length-checked', key, fn.loc(c['id']),
                 '%s appends a caller-supplied string without first passing a length test against a bound <= %d on that string '
-                '(over-long input must throw std::length_error, not overflow the size field): %s' % (fn.q, limit, describe(fn, w)))
+                '(over-long input must throw std::length_error, not overflow the size field): %s' % (fn.q, limit, _ipd(w)))
 
 
 # ------------------------------------------------------------------------------------------------ G4 blobs
@@ -343,7 +377,7 @@ def g4_blobs(fb, R):
         # (a) a view of the blob's own bytes returned to the caller: its size is bounded
         n_a = 0
         for ret in _returns(fn):
-            vs = {r for r in local_roots(fn, ret['sub']) if r[0] == 'var'}
+            vs = _var_roots(fn, ret['sub'])
             views = set()
             for r in vs:
                 for d in definitions(fn, r[1]):
@@ -354,9 +388,8 @@ def g4_blobs(fb, R):
             if not views:
                 continue
             n_a += 1
-            pe = classify_edges(fn, upper_bound(_rooted_in(views), _const_le(max_blob)))
             starts = [d for r in views for d in definitions(fn, r[1])]
-            w = reaches_unchecked(fn, starts, [ret['id']], pe)
+            w = guarded(fb, fn, starts, [ret['id']], views, UB(_const_le(max_blob)))
             R.check(w is None, rule, fn.q + '#raw-data-size', fn.loc(ret['id']),
                     'uncompressed blob data is handed on without the size test against max_uncompressed_blob_size: %s' % describe(fn, w))
         if n_a == 0:
@@ -370,20 +403,17 @@ def g4_blobs(fb, R):
             if len(args) < 3:
                 R.broken('decode_blob: unexpected signature of %s' % c['q'])
                 continue
-            vs = {r for r in local_roots(fn, args[2]) if r[0] == 'var'}
+            vs = _var_roots(fn, args[2])
             if len(vs) != 1:
                 R.broken('decode_blob: raw size argument of %s is not a single local' % c['q'])
                 continue
             n_b += 1
             d = list(vs)[0][1]
-            up = classify_edges(fn, upper_bound(_rooted_in(vs), _const_le(max_blob)))
-            w = reaches_unchecked(fn, starts_for(fn, d), [c['id']], up,
-                                  barriers=helper_barriers(fb, fn, vs, lambda isub: upper_bound(isub, _const_le(max_blob))))
+            w = guarded(fb, fn, starts_for(fn, d), [c['id']], vs, UB(_const_le(max_blob)))
             R.check(w is None, rule, fn.q + '#raw_size-upper-bound', fn.loc(c['id']),
                     'raw_size read from the file reaches %s (output.resize(raw_size)) without the test against max_uncompressed_blob_size: %s'
                     % (_method_name(c['q']), describe(fn, w)))
-            lo = classify_edges(fn, lower_bound(_rooted_in(vs), lambda f, x: f.const_value(x) in (0, 1)))
-            w = reaches_unchecked(fn, starts_for(fn, d), [c['id']], lo)
+            w = guarded(fb, fn, starts_for(fn, d), [c['id']], vs, LB(_is01))
             R.check(w is None, rule, fn.q + '#raw_size-not-negative', fn.loc(c['id']),
                     'a negative raw_size reaches %s (converted to a huge unsigned size): %s' % (_method_name(c['q']), describe(fn, w)))
         if n_b == 0:
@@ -424,9 +454,8 @@ def g4_blobs(fb, R):
                         ok = False
                         continue
                     subj = {('var', g.params[0]['d'])}
-                    pe = classify_edges(g, upper_bound(_rooted_in(subj), _const_le(max_hdr)))
                     rets = [r['id'] for r in _returns(g)]
-                    w = reaches_unchecked(g, ['entry'], rets, pe)
+                    w = guarded(fb, g, ['entry'], rets, subj, UB(_const_le(max_hdr)))
                     if w is not None or not rets:
                         ok = False
                         msg = '%s returns its argument unchecked: %s' % (g.q, describe(g, w))
@@ -441,11 +470,10 @@ def g4_blobs(fb, R):
                     R.broken('%s: size read from the input is stored in something other than a local' % fn.q)
                     continue
                 subj = {('var', d)}
-                pe = classify_edges(fn, upper_bound(_rooted_in(subj), _const_le(max_hdr)))
-                uses = [r['id'] for r in _returns(fn) if ('var', d) in local_roots(fn, r['sub'])]
+                uses = [r['id'] for r in _returns(fn) if ('var', d) in deep_roots(fn, r['sub'])]
                 uses += [n['id'] for n in fn.all_nodes() if n.get('k') == 'call' and 'q' in n and n['id'] != c['id']
-                         and n.get('q') != gs and any(a is not None and ('var', d) in local_roots(fn, a) for a in n.get('args', []))]
-                w = reaches_unchecked(fn, [consumer['id']], uses, pe)
+                         and n.get('q') != gs and any(a is not None and ('var', d) in deep_roots(fn, a) for a in n.get('args', []))]
+                w = guarded(fb, fn, [consumer['id']], uses, subj, UB(_const_le(max_hdr)))
                 R.check(w is None and bool(uses), rule, key, fn.loc(c['id']),
                         'BlobHeader size from the file is used without the test against max_blob_header_size: %s' % describe(fn, w))
             elif consumer.get('k') == 'return':
@@ -460,14 +488,12 @@ def g4_blobs(fb, R):
         R.broken('decode_blob_header not found')
     for fn in fns:
         for ret in _returns(fn):
-            vs = {r for r in local_roots(fn, ret['sub']) if r[0] == 'var'}
+            vs = _var_roots(fn, ret['sub'])
             if len(vs) != 1:
                 R.broken('decode_blob_header: returned value is not a single local')
                 continue
-            pe = classify_edges(fn, equals(_rooted_in(vs), lambda f, x: f.const_value(x) == 0, want_equal=False))
-            pe |= classify_edges(fn, lower_bound(_rooted_in(vs), lambda f, x: f.const_value(x) in (0, 1)))
             # the local starts at 0 (constant initialiser): the path from entry must be covered as well
-            w = reaches_unchecked(fn, ['entry'], [ret['id']], pe)
+            w = guarded(fb, fn, ['entry'], [ret['id']], vs, [EQ(_is0, False), LB(_is01)])
             R.check(w is None, rule, fn.q + '#datasize-not-zero', fn.loc(ret['id']),
                     'a BlobHeader without datasize (or datasize 0) is accepted: the caller reads a zero-length blob and loops on the '
                     'same header logic: %s' % describe(fn, w))
@@ -480,16 +506,15 @@ def g4_blobs(fb, R):
             R.broken('read_from_input_queue_with_check: no size parameter')
             continue
         subj = {('var', fn.params[0]['d'])}
-        pe = classify_edges(fn, upper_bound(_rooted_in(subj), _const_le(max_blob)))
         uses = []
         for n in fn.all_nodes():
-            if n.get('k') == 'call' and 'q' in n and any(a is not None and subj & local_roots(fn, a) for a in n.get('args', [])):
+            if n.get('k') == 'call' and 'q' in n and any(a is not None and subj & deep_roots(fn, a) for a in n.get('args', [])):
                 if _method_name(n['q']) in ('resize', 'reserve', 'append', 'assign', 'ensure_available_in_input_queue', 'read_exactly'):
                     uses.append(n['id'])
         if not uses:
             R.broken('read_from_input_queue_with_check: no allocation / fill driven by the size parameter found')
             continue
-        w = reaches_unchecked(fn, ['entry'], uses, pe, barriers=helper_barriers(fb, fn, subj, lambda isub: upper_bound(isub, _const_le(max_blob))))
+        w = guarded(fb, fn, ['entry'], uses, subj, UB(_const_le(max_blob)))
         R.check(w is None, rule, fn.q + '#blob-size-before-allocation', fn.site,
                 'blob size from the BlobHeader drives resize/append without the test against max_uncompressed_blob_size: %s' % describe(fn, w))
 
@@ -543,10 +568,9 @@ def g5_o5m(fb, R):
                 # a pointer computed from pointer + variable length
                 subj = {('var', v['d'])}
                 pset = {('var', p['d']) for p in ends}
-                cl = upper_bound(_rooted_in(subj), lambda f, x, pset=pset: bool(local_roots(f, x)) and local_roots(f, x) <= pset and _is_ptr_t((f.sn(x) or {}).get('t')))
-                pe = classify_edges(fn, cl)
-                uses = _uses_of(fn, v['d'], _matching_conds(fn, cl))
-                w = reaches_unchecked(fn, [n['id']], uses, pe)
+                mk = UB(lambda f, x, pset=pset: bool(local_roots(f, x)) and local_roots(f, x) <= pset and _is_ptr_t((f.sn(x) or {}).get('t')))
+                uses = _uses_of(fn, v['d'], _matching_conds(fn, mk(_rooted_in(subj))))
+                w = guarded(fb, fn, [n['id']], uses, subj, mk)
                 R.check(w is None and bool(uses), rule, '%s#derived-end:%s' % (fn.q, v['name']), fn.loc(n['id']),
                         'section end computed from a length in the file is used without first being compared with the end of the dataset '
                         '(derived > end -> throw): %s' % describe(fn, w))
@@ -569,13 +593,10 @@ def g5_o5m(fb, R):
                 'the table is indexed although it may still be empty (it is allocated lazily by add()): %s' % describe(fn, w))
         subj = {('var', fn.params[0]['d'])}
         nent = _table_entries(fn, idx[0])
-        pe = classify_edges(fn, upper_bound(_rooted_in(subj), lambda f, x: f.const_value(x) is not None and nent is not None and f.const_value(x) <= nent))
-        w = reaches_unchecked(fn, ['entry'], [idx[0]['id']], pe)
+        w = guarded(fb, fn, ['entry'], [idx[0]['id']], subj, UB(lambda f, x: f.const_value(x) is not None and nent is not None and f.const_value(x) <= nent))
         R.check(w is None, rule, fn.q + '#index-upper-bound', fn.loc(idx[0]['id']),
                 'string reference from the file is used without the test index > number_of_entries: %s' % describe(fn, w))
-        pe = classify_edges(fn, equals(_rooted_in(subj), lambda f, x: f.const_value(x) == 0, want_equal=False))
-        pe |= classify_edges(fn, lower_bound(_rooted_in(subj), lambda f, x: f.const_value(x) in (0, 1)))
-        w = reaches_unchecked(fn, ['entry'], [idx[0]['id']], pe)
+        w = guarded(fb, fn, ['entry'], [idx[0]['id']], subj, [EQ(_is0, False), LB(_is01)])
         R.check(w is None, rule, fn.q + '#index-not-zero', fn.loc(idx[0]['id']),
                 'string reference 0 is not rejected: %s' % describe(fn, w))
     # ---- (c) ReferenceTable::add
@@ -596,9 +617,8 @@ def g5_o5m(fb, R):
             R.broken('ReferenceTable::add: cannot identify count / destination of the copy')
             continue
         entry_size = _entry_size(fn, dst[0])
-        subj = {r for r in local_roots(fn, cnt) if r[0] == 'var'}
-        pe = classify_edges(fn, upper_bound(_rooted_in(subj), lambda f, x: f.const_value(x) is not None and entry_size is not None and f.const_value(x) <= entry_size))
-        w = reaches_unchecked(fn, ['entry'], [cp['id']], pe)
+        subj = _var_roots(fn, cnt)
+        w = guarded(fb, fn, ['entry'], [cp['id']], subj, UB(lambda f, x: f.const_value(x) is not None and entry_size is not None and f.const_value(x) <= entry_size))
         R.check(w is None and bool(subj), rule, fn.q + '#copy-size-bounded', fn.loc(cp['id']),
                 'a string from the file is copied into a table slot without the size test (size <= max_length <= entry_size=%s): %s' % (entry_size, describe(fn, w)))
         tbl = fn.sn(fn.nodes[dst[0]]['recv'])['name']
@@ -1235,9 +1255,70 @@ def _length_carrying_overloads(fb):
     return out
 
 
-def _overload_rejects_nul(fn, sites):
+_NUL_FINDERS = ('std::find', 'memchr', 'std::memchr', 'std::char_traits::find', 'rawmemchr')
+_NUL_LENGTHS = ('strlen', 'std::strlen', 'strnlen', 'std::char_traits::length')
+
+
+def _unwrap(fn, nid):
+    """skip casts and named pure locals"""
+    x = resolve_local(fn, nid)
+    hops = 0
+    while x is not None and hops < 8:
+        hops += 1
+        n = fn.nodes.get(x)
+        if n is not None and n.get('k') == 'cast':
+            x = resolve_local(fn, n['sub'])
+            continue
+        break
+    return x
+
+
+def _nul_bounded_length(fb, fn, nid, depth=0):
+    """the expression is the distance from the start of a string to its first NUL byte (or to its end when there is none):
+    strlen / strnlen, `find(p, p + n, 0) - p`, `memchr(p, 0, n) - p`, a conditional with such a branch, `+ const` of such a
+    length, or a helper all of whose returns have this form."""
+    if depth > 4:
+        return False
+    x = _unwrap(fn, nid)
+    n = fn.nodes.get(x)
+    if n is None:
+        return False
+    k = n.get('k')
+    if k == 'call' and n.get('q') in _NUL_LENGTHS:
+        return True
+    if k == 'binop' and n.get('op') == '+':
+        if fn.const_value(n['rhs']) is not None:
+            return _nul_bounded_length(fb, fn, n['lhs'], depth + 1)
+        if fn.const_value(n['lhs']) is not None:
+            return _nul_bounded_length(fb, fn, n['rhs'], depth + 1)
+        return False
+    if k == 'binop' and n.get('op') == '-':
+        l = fn.nodes.get(_unwrap(fn, n['lhs']))
+        if l is not None and l.get('k') == 'call' and l.get('q') in _NUL_FINDERS:
+            args = [a for a in l.get('args', []) if a is not None]
+            zero = any(fn.const_value(a) == 0 for a in args[1:])
+            same = bool(args) and deep_roots(fn, args[0]) == deep_roots(fn, n['rhs']) and bool(deep_roots(fn, n['rhs']))
+            return zero and same
+        return False
+    if k == 'condop':
+        return _nul_bounded_length(fb, fn, n['then'], depth + 1) or _nul_bounded_length(fb, fn, n['else'], depth + 1)
+    if k == 'call' and n.get('u'):
+        bodies = [g for g in fb.by_usr.get(n['u'], []) if g.has_cfg]
+        if bodies:
+            g = bodies[0]
+            rets = _returns(g)
+            return bool(rets) and all(_nul_bounded_length(fb, g, r['sub'], depth + 1) for r in rets)
+    return False
+
+
+def _overload_rejects_nul(fb, fn, sites):
+    """every length-carrying append of the overload either sits behind a NUL scan whose other edge throws, or copies only up
+    to the first NUL byte."""
     for (c, ps) in sites:
         subj = {('var', d) for d in ps}
+        args = [a for a in c.get('args', []) if a is not None]
+        if len(args) >= 2 and _nul_bounded_length(fb, fn, args[1]):
+            continue
         pe = _nul_scan_edges(fn, subj)
         if reaches_unchecked(fn, ['entry'], [c['id']], pe) is not None:
             return False
@@ -1343,7 +1424,7 @@ def nul_layout(fb, R):
     if not ovs:
         R.broken('no length-carrying TagListBuilder::add_tag overload found')
         return
-    safe = {u: _overload_rejects_nul(fn, sites) for u, (fn, sites) in ovs.items()}
+    safe = {u: _overload_rejects_nul(fb, fn, sites) for u, (fn, sites) in ovs.items()}
     # string table entries NUL-free?  (alternative fix location)
     table_ok = False
     rec = fb.record(PBD)
@@ -1368,7 +1449,7 @@ def nul_layout(fb, R):
             n += 1
             key = '%s#add_tag%s' % (fn.q, sig(ov))
             if safe[c['u']]:
-                R.ok(rule, key, fn.loc(c['id']), 'the overload rejects interior NUL bytes')
+                R.ok(rule, key, fn.loc(c['id']), 'the overload rejects interior NUL bytes or copies only up to the first one')
                 continue
             # origin of the string arguments
             rs = set()
